@@ -44,11 +44,11 @@ def model_classes(ctx: Ctx) -> List[ClassInfo]:
     return res
 
 
-def _components(ctx: Ctx, c: ClassInfo, fn: FuncInfo, who: str = "self") -> Set[str]:
+def _components(ctx: Ctx, c: ClassInfo, fn: FuncInfo, who: str = "self", _depth: int = 0) -> Set[str]:
     """State components of `who` read in fn: instance fields (after accessor inlining), 'str', and query names."""
     repo = ctx.repo
     out: Set[str] = set()
-    node = inline_properties(repo, c, fn.node) if who == "self" else fn.node
+    node = inline_properties(repo, c, fn.node) if who == "self" and fn.cls is not None else fn.node
     for n in ast.walk(node):
         if isinstance(n, ast.Attribute) and isinstance(n.value, ast.Name) and n.value.id == who:
             name = n.attr
@@ -63,6 +63,33 @@ def _components(ctx: Ctx, c: ClassInfo, fn: FuncInfo, who: str = "self") -> Set[
             out.add("type()")
         elif isinstance(n, ast.BinOp) and isinstance(n.op, ast.Mod) and isinstance(n.left, ast.Name) and n.left.id == who:
             out.add("% const")
+    # what helper methods / functions read of the same object counts as read here
+    if _depth < 4:
+        for call in [n for n in ast.walk(node) if isinstance(n, ast.Call)]:
+            f = call.func
+            if isinstance(f, ast.Attribute) and isinstance(f.value, ast.Name) and f.value.id == who:
+                m = repo.lookup_method(c, f.attr)
+                if m is not None and not m.is_property and not m.is_static:
+                    out.discard(f.attr)
+                    out |= _components(ctx, c, m, m.params[0] if m.params else "self", _depth + 1)
+            elif isinstance(f, ast.Attribute) and isinstance(f.value, ast.Call) and dotted(f.value.func) == "super" and who == (fn.params[0] if fn.params else "self") and fn.cls is not None:
+                mro = repo.mro(c)
+                start = mro.index(fn.cls) + 1 if fn.cls in mro else 1
+                for k in mro[start:]:
+                    if isinstance(k, ClassInfo) and f.attr in k.methods:
+                        pm = k.methods[f.attr]
+                        out |= _components(ctx, c, pm, pm.params[0] if pm.params else "self", _depth + 1)
+                        break
+            elif isinstance(f, (ast.Name, ast.Attribute)):
+                idx = [i for i, a in enumerate(call.args) if isinstance(a, ast.Name) and a.id == who]
+                if idx:
+                    r = None
+                    try:
+                        r = repo.resolve_expr(fn.module, f, fn.cls)
+                    except Exception:
+                        r = None
+                    if isinstance(r, FuncInfo) and r.cls is None and idx[0] < len(r.params):
+                        out |= _components(ctx, c, r, r.params[idx[0]], _depth + 1)
     return out
 
 
@@ -106,29 +133,93 @@ def rule_r1_r2(ctx: Ctx) -> None:
         raises = [p for p in paths if p.kind == "raise"]
         bare_false = [p for p in rets if norm(p.value) == "False" and any(isinstance(cnd, ast.Call) and dotted(cnd.func) == "isinstance" and not pol for cnd, pol in p.conds if not isinstance(cnd, tuple))]
         ctx.check(bool(ni) and not falls and not raises and not bare_false, c.short + ".__eq__", "foreign operand -> NotImplemented", "comparison with a foreign type must return NotImplemented", eq.where(), {"paths": [repr(p)[:120] for p in paths][:6]})
-    # BitLengthSet.__eq__: conjunction of equalities over min / max / % const
+    # BitLengthSet.__eq__ abstractly evaluated on two probes that stand for *equal* sets: every query of one set-determined kind
+    # (min, max, residues modulo d, fixed_length) gives both the same abstract answer; anything else that is asked is recorded
+    from ..absint import Raised, call_fn
+    from ..fold import Abstract, Folder, Unfoldable
+    from ..layout import AbsBool, AbsInt, NotLayout, explore
+
     b = ctx.cls("_bit_length_set._bit_length_set.BitLengthSet")
     eq = b.methods["__eq__"]
-    rets = [p for p in paths_of(eq.node) if p.kind == "return" and norm(p.value) != "NotImplemented"]
-    good = len(rets) == 1
-    detail: Any = None
-    if good:
-        v = rets[0].value
-        terms = v.values if isinstance(v, ast.BoolOp) and isinstance(v.op, ast.And) else [v]
-        kinds = []
-        for t in terms:
-            k = "?"
-            if isinstance(t, ast.Compare) and len(t.ops) == 1 and isinstance(t.ops[0], ast.Eq):
-                l, r = norm(t.left), norm(t.comparators[0])
-                for q in ("min", "max"):
-                    if {l, r} == {"self.%s" % q, "BitLengthSet(other).%s" % q} or {l, r} == {"self.%s" % q, "other.%s" % q}:
-                        k = q
-                if l.startswith("set(self % ") and (r.startswith("set(BitLengthSet(other) % ") or r.startswith("set(other % ")) and l.split("%")[1] == r.split("%")[1]:
-                    k = "residues"
-            kinds.append(k)
-        detail = kinds
-        good = "?" not in kinds and "min" in kinds and "max" in kinds
-    ctx.check(good, b.short + ".__eq__", "compares %s" % detail, "set equality must be decided from set-determined queries only (min, max, residues) so equal sets never compare unequal", eq.where(), detail)
+    asked: List[str] = []
+    foreign: List[str] = []
+
+    class Residues(Abstract):
+        def __init__(self, d: Any):
+            self.d = d
+
+        def __iter__(self) -> Any:
+            return iter([("residues-mod", self.d)])
+
+        def __eq__(self, o: Any) -> Any:  # type: ignore
+            return isinstance(o, Residues) and o.d == self.d
+
+        __hash__ = None  # type: ignore
+
+    class Probe(Abstract):
+        _isa_ = frozenset({"BitLengthSet"})
+
+        def __init__(self, name: str):
+            self.__dict__["name"] = name
+
+        @property
+        def min(self) -> Any:
+            asked.append("min")
+            return AbsInt(("min", "S"))
+
+        @property
+        def max(self) -> Any:
+            asked.append("max")
+            return AbsInt(("max", "S"))
+
+        @property
+        def fixed_length(self) -> Any:
+            asked.append("fixed_length")
+            return AbsBool(("fixed", "S"))
+
+        def __mod__(self, d: Any) -> Any:
+            asked.append("residues mod %s" % (d,))
+            return Residues(d)
+
+        def is_aligned_at(self, d: Any) -> Any:
+            asked.append("is_aligned_at")
+            return AbsBool(("aligned", "S", d))
+
+        def is_aligned_at_byte(self) -> Any:
+            return self.is_aligned_at(8)
+
+        def __iter__(self) -> Any:
+            foreign.append("iteration (numerical expansion)")
+            raise Unfoldable("expansion")
+
+        def __len__(self) -> int:
+            foreign.append("len() (numerical expansion)")
+            raise Unfoldable("expansion")
+
+        def __getattr__(self, name: str) -> Any:
+            if name.startswith("__"):
+                raise AttributeError(name)
+            foreign.append(name)
+            raise Unfoldable("asks for %s" % name)
+
+    def hook(e: ast.expr, f: Folder) -> Any:
+        if isinstance(e, ast.Call) and (dotted(e.func) or "").split(".")[-1] == "BitLengthSet" and len(e.args) == 1:
+            v = f.fold(e.args[0])
+            if isinstance(v, Probe):
+                return v
+        return NotImplemented
+
+    results = []
+    err = None
+    try:
+        for assumptions, r in explore(lambda: call_fn(ctx, eq, [Probe("a"), Probe("b")], hook=hook)):
+            results.append(r)
+    except (Unfoldable, NotLayout, Raised) as ex:
+        err = str(ex)
+    if err is not None and not foreign:
+        raise AnalysisError("BitLengthSet.__eq__: cannot evaluate over abstract sets: %s" % err)
+    good = not foreign and bool(results) and all(r is True for r in results) and "min" in asked and "max" in asked
+    ctx.check(good, b.short + ".__eq__", "asks %s%s" % (sorted(set(asked)), (" and " + str(sorted(set(foreign)))) if foreign else ""), "set equality must be decided from set-determined queries only (min, max, residues) so equal sets never compare unequal - and without expanding", eq.where(), {"answers for equal sets": [repr(r) for r in results], "other queries": sorted(set(foreign))})
     s = ctx.cls("_serializable._serializable.SerializableType")
     eq = s.methods["__eq__"]
     txt = norm(eq.node)
